@@ -30,6 +30,13 @@ def make_jobs(rng, n):
     for i in range(n):
         bn = rng.random() < 0.25
         g = gen.gen_graph(rng, bnodes=bn)
+        force_endpoint = i % 4 == 0
+        if force_endpoint:
+            # a quarter of the jobs go to the endpoint with a graph its result reader can carry (IRI nodes, plain strings, integers):
+            # instances with different property sets, so that constraints tie in frequency and their order shows the instance order
+            from props.c15 import gen_c15_graph
+            bn = False
+            g = gen_c15_graph(rng)
         cfg = gen.gen_cfg(rng, g, presentation=True, allow_cap=False)
         cfg['disable_or'] = rng.random() < 0.5
         cfg['allow_redundant_or'] = (not cfg['disable_or']) and rng.random() < 0.5
@@ -60,7 +67,7 @@ def make_jobs(rng, n):
                 if rng.random() < 0.3:
                     kw['all_classes_mode'] = True
                 tmode = 'shapemap'
-        dk = rng.choice(['nt', 'turtle', 'xml', 'json-ld', 'n3', 'graph', 'endpoint', 'turtle_iter'])
+        dk = 'endpoint' if force_endpoint else rng.choice(['nt', 'turtle', 'xml', 'json-ld', 'n3', 'graph', 'endpoint', 'turtle_iter'])
         if dk == 'turtle_iter' and tmode == 'shapemap':
             dk = 'nt'
         if dk == 'endpoint':
